@@ -119,13 +119,21 @@ def make_tree(case, comments=None, source=""):
     xyz = np.array(case["xyz"], dtype=np.float32).reshape(n, 3)
     cols = dict(id=np.arange(n, dtype=np.int32), pid=np.array(case["pids"], dtype=np.int32), type=np.array(case["types"], dtype=np.int32),
                 x=xyz[:, 0].copy(), y=xyz[:, 1].copy(), z=xyz[:, 2].copy(), r=np.array(case["r"], dtype=np.float32))
-    if case.get("names"):
+    own = case.get("names") or {}
+    table = None
+    if own:
         # the tree's own column-name table (the public `names=` option): {"id": "n", "pid": "parent", ...}; read results through the
         # accessors tree.id() / pid() / type() / xyz() / r(), which honour it
         from swcgeom.core.swc_utils import SWCNames
 
-        table = SWCNames(**case["names"])
-        return Tree(n, **{case["names"].get(k, k): v for k, v in cols.items()}, names=table, comments=comments, source=source)
+        table = SWCNames(**own)
+        cols = {own.get(k, k): v for k, v in cols.items()}
+    for k, v in (case.get("extra") or {}).items():
+        # further per-node columns of the table (kept by Tree), possibly under a standard name the tree's own table does not use
+        if k not in cols:
+            cols[k] = np.array(v, dtype=np.float32)
+    if table is not None:
+        return Tree(n, **cols, names=table, comments=comments, source=source)
     return Tree(n, **cols, comments=comments, source=source)
 
 
